@@ -9,10 +9,16 @@ Definition sd_b2z (b : bool) : Z := if b then 1 else 0.
 Fixpoint sd_zip (a d : list Z) : list sd_req :=
   match a, d with x :: a', y :: d' => mk_sd_req x y :: sd_zip a' d' | _, _ => [] end.
 
-(* [started] alone when start-up refuses the periods, else
+Fixpoint sd_zip_sig (t k : list Z) : list sd_sig :=
+  match t, k with x :: t', y :: k' => mk_sd_sig x y :: sd_zip_sig t' k' | _, _ => [] end.
+
+(* [sat] / [skind]: instants and kinds of ALL signals sent, the first (instant 0, a registered kind: it starts the sequence)
+   included; empty lists = only the first signal.
+   [started] alone when start-up refuses the periods, else
    [started; close; deadline; exit_time; exit_code] ++ accepted flags ++ completes flags *)
-Definition entry_shutdown (nonneg : bool) (W G : Z) (arr svc : list Z) : list Z :=
+Definition entry_shutdown (nonneg : bool) (W G : Z) (arr svc sat skind : list Z) : list Z :=
   let l := sd_zip arr svc in
+  let extra := tl (sd_zip_sig sat skind) in
   if negb (sd_startable nonneg W G) then [0] else
-  [1; sd_close W; sd_deadline W G; sd_exit_time W G l; sd_exit_code W G l]
-  ++ map (fun q => sd_b2z (sd_accepted W q)) l ++ map (fun q => sd_b2z (sd_completes W G q)) l.
+  [1; sd_close W; sd_deadline W G; sd_exit_time_x W G l extra; sd_exit_code_x W G l extra]
+  ++ map (fun q => sd_b2z (sd_accepted_x W G l extra q)) l ++ map (fun q => sd_b2z (sd_completes_x W G l extra q)) l.
